@@ -251,7 +251,11 @@ void run(const Case &c, verif_result *out) {
         return;
     }
     bool nt = facts.tags.count("zero_weight_cycle") || facts.tags.count("tie") || (prop != "C19" && facts.tags.count("unreachable"));
-    fillResult(out, 0, nt, 0, "", joinTags(facts), "");
+    // for C19 the digest field carries the bound V+E+1 (used by the guided search as the scale of `work`)
+    size_t E = 0;
+    for (unsigned v = 0; v < m.n; ++v)
+        E += g.getOutNeighbours(v).size();
+    fillResult(out, 0, nt, prop == "C19" ? m.n + E + 1 : 0, "", joinTags(facts), "");
     out->work = maxScans;
 }
 
